@@ -369,7 +369,7 @@ func runParse(c *core.Ctx, r *core.Result) {
 	scripts := scriptMessages()
 	r.Note("seed corpus: %d message types from the generator, %d inbound lines from acceptance scripts", len(targets), len(scripts))
 	j := core.NewJournal(c, c.Workers+1)
-	n := c.N(150000, 25000000)
+	n := c.N(150000, 8000000)
 	batch := 100
 	core.Each(c, r, "parse", n/batch, func(i int, rng *rand.Rand) {
 		reused := quickfix.NewMessage()
